@@ -9,11 +9,22 @@ from spec.coc import (is_sdu_prefix, le16, ledger_ok, payload_part, rs_complete,
 
 ENVIRONMENT = [
     'ChannelManager.send_pdu / send_control_frame (and below them Host.send_l2cap_pdu, ACL fragmentation = C05, HCI '
-    'flow control = C04) are replaced by recording stubs: frames are delivered to the peer unmodified and in order',
+    'flow control = C04) are replaced by recording stubs: frames reach the peer unmodified and in order',
     'asyncio: every function of the kernel is synchronous and runs atomically (A1)',
-    'the application sink does not re-enter the channel (A2)',
+    'the application sink does not re-enter the channel (A2) and is installed before the peer\'s first K-frame arrives '
+    '(on_pdu with sink None drops the frame without touching the credit ledger: outside the contract)',
+    'write sizes and SDU lengths are >= 1 (the statement\'s quantifier): a zero-length SDU is outside the on_pdu contract '
+    '(in_sdu_length == 0 doubles as "length unknown"; natively such an SDU wedges the reassembly, see notes/C07/NOTES.md)',
+    'the peer announces MTU/MPS in their legal ranges (the request/response handlers do not validate them); only '
+    '1 <= MTU <= 65535 and MPS >= 1 are needed by the sender proofs',
     'liveness proper (the transfer completes) needs fairness of the peer and of the scheduler; only its safety '
-    'shadows are proved (no stall with credits, the peer always holds a credit after a frame, ledger conservation)',
+    'shadows are proved (no stall with credits, the peer always holds a credit after a frame, two-party ledger, no deadlock)',
+    'the composition of coc_stream with the sender contract over delayed (order preserving) delivery is a paper step: '
+    'the receiver state is a function of the frame sequence only, which is what coc_stream quantifies over',
+    'negotiation lemmas build the manager tables in the ghost driver: at most one other channel on the connection '
+    '(arbitrary endpoints), 1 or 2 channels per enhanced request / response (the specification allows 5): bounded',
+    'create_le_credit_based_channel / create_enhanced_credit_based_channels / LeCreditBasedChannel.connect (async, '
+    'initiator side registration after the await) are not under contract',
 ]
 
 CONNECTED = int(l2cap.LeCreditBasedChannel.State.CONNECTED)
@@ -779,7 +790,8 @@ for _n in (1, 2):
         lemma_enhanced_request,
         prop='C07',
         params=dict(mgr=MGR, connection=Inst('ghost:Conn'), request=Inst(f'bumble.l2cap:L2CAP_Credit_Based_Connection_Request#{_n}'), server=SERVER,
-                    has_server=Bool, other=CHAN, has_other=Bool, which=IntRange(0, _n - 1), grant=IntRange(0, 0xFFFF)),
+                    # (the refusal for an unknown SPSM happens before the endpoints are looked at: covered by the 1-channel instance)
+                    has_server=Bool if _n == 1 else OneOf(True), other=CHAN, has_other=Bool, which=IntRange(0, _n - 1), grant=IntRange(0, 0xFFFF)),
         ghost=NEG_GHOST,
         requires=enh_requires,
         uses=['bumble.l2cap:LeCreditBasedChannel.on_credits'],
